@@ -255,6 +255,11 @@ def build(template_path, repo, variant="strict", inline=None):
                 opts["optional"] = True
             elif d2 == "nocanary":
                 opts["nocanary"] = True
+            elif d2.startswith("attr "):
+                # a Verus attribute for the generated function (and its canary copy), e.g. #[verifier::exec_allows_no_decreases_clause]
+                if not re.match(r"#\[verifier::[\w:]+(\([^)]*\))?\]$", d2[5:].strip()):
+                    raise ValueError("attr: only #[verifier::..] attributes: %r" % d2)
+                opts.setdefault("attrs", []).append(d2[5:].strip())
             elif d2 == "bodyless":
                 opts["bodyless"] = True
             elif d2.startswith("sub "):
@@ -600,6 +605,8 @@ def build(template_path, repo, variant="strict", inline=None):
             for emit_canary in ([False, True] if do_canary else [False]):
                 g0 = len(out) + 1
                 out.append(("// ---- extracted%s: %s %s (lines %d-%d, sha256 %s) ----" % (" (vacuity canary copy)" if emit_canary else "", relfile, selector, item.line0, item.line1, item.sha[:16]), ("gen", None, 0)))
+                for a_ in opts.get("attrs", []):
+                    out.append((a_, ("gen", None, 0)))
                 first_sig = True
                 for (t, o) in sig_lines:
                     if emit_canary and first_sig:
